@@ -107,10 +107,10 @@ func ruleF2(c *Ctx, id string) {
 				continue
 			}
 			okCaller := cs.Caller == pr.owner
-			if !okCaller && pr.callee == V.PostAbort && cs.Caller == V.commitWait {
+			if fb := funnelBody(c, V.commitWait, funcIs(V.JrnlCommitWait)).Fn; !okCaller && pr.callee == V.PostAbort && cs.Caller == fb {
 				// the undo of a commit the journal refused: only on the false side of jrnl.CommitWait
-				for _, jc := range P.CallsIn(V.commitWait, funcIs(V.JrnlCommitWait)) {
-					if cv, isC := jc.(*ssa.Call); isC && everyPathTakes(V.commitWait, cs.Instr.Block(), boolEdge(V.commitWait, cv, false)) {
+				for _, jc := range P.CallsIn(fb, funcIs(V.JrnlCommitWait)) {
+					if cv, isC := jc.(*ssa.Call); isC && everyPathTakes(fb, cs.Instr.Block(), boolEdge(fb, cv, false)) {
 						okCaller = true
 					}
 				}
